@@ -64,3 +64,25 @@ Print Assumptions C13_flatten.
 Theorem C13_flatten_app : forall a b, common_flowsets (a ++ b) = common_flowsets a ++ common_flowsets b.
 Proof. intros a b. unfold common_flowsets. apply flat_map_app. Qed.
 Print Assumptions C13_flatten_app.
+
+(* The full statement ("absent only when the record has no such field", "one flow per record")
+   is FALSE of the faithful model: the known-finding classes, each with its witness.
+   K_C13_v9_protocol: a V9 record whose Protocol field decoded as a protocol name has no
+   protocol number in the common flow; K_C13_v9_switched: first/last switched decoded as
+   durations are absent; K_C13_v9_width: a 4-byte port is absent; K_C13_ipfix_per_field: an IPFIX
+   data set of one record with three fields gives three flows. *)
+Theorem C13_refuted :
+  (let rec := [(vdisc v9_variants "Protocol", VProto 6)] in
+   get_last (vdisc v9_variants "Protocol") rec <> None /\ c_pnum (v9_common_flow rec) = None /\ c_ptype (v9_common_flow rec) = None)
+  /\ (let rec := [(vdisc v9_variants "FirstSwitched", VDur 1 0)] in
+      get_last (vdisc v9_variants "FirstSwitched") rec <> None /\ c_first (v9_common_flow rec) = None)
+  /\ (let rec := [(vdisc v9_variants "L4SrcPort", VNum (U32 443))] in
+      get_last (vdisc v9_variants "L4SrcPort") rec <> None /\ c_sport (v9_common_flow rec) = None)
+  /\ (let p := {| ix_header := [10; 32; 0; 0; 0]%N;
+                  ix_sets := [ {| is_id := 256; is_len := 16;
+                                  is_body := IxData [ (0, vdisc ipfix_variants "SourceIpv4address", VIp4 167772161);
+                                                      (1, vdisc ipfix_variants "DestinationIpv4address", VIp4 167772162);
+                                                      (2, vdisc ipfix_variants "SourceTransportPort", VNum (U16 443)) ]%N [] |} ] |} in
+      length (c_flows (common_ipfix p)) = 3%nat).
+Proof. vm_compute. repeat split; discriminate. Qed.
+Print Assumptions C13_refuted.
